@@ -207,6 +207,7 @@ def judgeCore (s : JState) (e : Ev) : JState :=
   | .tcleanup => { s with tInited := false, tActive := false }
   | .mt kind ok detail => if ok then s else s.flag s!"mt-{kind} {detail}"
   | .hbrace _ ticked => if ticked then s else s.flag "timer-not-firing"
+  | .hbowed kept => if kept then s else s.flag "tick-swallowed a tick that arrived inside call_heart_beat was wiped by its clear"
   | .race what => s.flag s!"data-race {what}"
   | .skip _ => s
 
